@@ -263,6 +263,24 @@ func (c *Ctx) WhoWrites(prop string) {
 			}
 		}
 	}
+	// the recorders themselves are called only from rule evaluation (which runs under the key lock of the record's key):
+	// any other caller - a start-up job, a background task - is a second writer that can put an older value back
+	entries := map[*ssa.Function]bool{s.Attest: true, s.AttestB: true, s.Propose: true}
+	for f := range rec {
+		if f == s.StoreStore || f == s.StoreBatch {
+			continue // their direct callers are judged above
+		}
+		for _, cs := range c.staticCallers()[f] {
+			caller := cs.Parent()
+			if prog.IsTestish(prog.PkgPathOf(caller)) || rec[caller] || caller == s.ImportFn {
+				continue
+			}
+			if !c.onlyCalledFrom(caller, entries, 2) {
+				bad++
+				c.R.Fail(rule, Fn(caller)+":recorder-caller", c.Pos(cs), "a watermark recorder ("+Fn(f)+") is called from outside rule evaluation: records can be written without the key lock and after newer approvals (a stale value put back)", "recorders are called only by the rule entry points", nil)
+			}
+		}
+	}
 	// callers of ImportSlashingProtection: only the import command path of main (never a service)
 	g := c.ModGraph()
 	handlers := c.HandlerMethods(rule)
